@@ -117,6 +117,16 @@ CHECKS["C20"] = (
     "transcript/CDS/feature cover exactly the union (probe position), types = union; annotation collections iterate sorted by "
     "start (stable) with inferred bounds; primary sequence accessors on a concrete genome.",
     _NOTE, "DESIGN.md §3 C20")
+CHECKS["C09"] = (
+    _CH + " with an assume/guarantee split: the bin pre-filter is replaced by a nondeterministic CONTRACT stub whose contract C16 proves for the real bins()",
+    "Position queries on 2-member collections (gene/gene, gene/feature collection, gene/variant collection) with UNBOUNDED symbolic "
+    "member coordinates, collection bounds and query range, for the flag combinations (all 8 for gene+feature collection): member "
+    "returned <=> strict/relaxed geometric spec and coding filter, whatever the bin stub answers outside its contract; result "
+    "bounds (incl. expansion), members' coordinates/dictionary form/child guids unchanged, invalid ranges refused; guid / "
+    "interval-guid / identifier queries for every enumerated request set; interval-guid sub-selection; realised legs with the REAL "
+    "bins and real sequence re-chunking (sequences restricted to new bounds, idempotence, chunk offsets across a 128 kb boundary, "
+    "2^29 boundary = recorded finding F6c).",
+    _NOTE + " cgranges branch not installed, not covered.", "DESIGN.md §3 C09")
 for _p in [ "C09", "C10", "C11", "C17",
            "C19"]:
     NOT_APPLICABLE[_p] = "check not built yet (build in progress; see DESIGN.md §3 for the planned solver-based check)"
